@@ -151,11 +151,19 @@ impl<'a> PrettyPrinter<'a> {
         math_attach: MathAttach<'a>,
     ) -> ArenaDoc<'a> {
         let mut after_code = false;
+        // A part that ends in `*` or `/` must not touch a block comment behind it: `a_* /* c */` is not `a_*/* c */`.
+        let children = math_attach.to_untyped().children().as_slice();
+        let touches_comment = |node: &SyntaxNode| {
+            (children.iter().skip_while(|it| !std::ptr::eq(*it, node)).skip(1))
+                .find(|it| it.kind() != SyntaxKind::Space)
+                .is_some_and(|next| next.kind() == SyntaxKind::BlockComment)
+                && node.clone().into_text().ends_with(['*', '/'])
+        };
         self.convert_flow_like(ctx, math_attach.to_untyped(), |ctx, node| {
             if let Some(expr) = node.cast::<Expr>() {
                 // Embedded code (`#x`) is converted in code mode.
                 after_code = ctx.mode.is_code();
-                FlowItem::tight(self.convert_expr(ctx, expr))
+                FlowItem::new(self.convert_expr(ctx, expr), false, touches_comment(node))
             } else if node.kind() == SyntaxKind::Space {
                 // A blank behind embedded code ends it: `#x _a` is not `#x_a`.
                 if std::mem::take(&mut after_code) {
